@@ -975,6 +975,13 @@ func (nz *Normalizer) siteEdit(fset *token.FileSet, s *nfSite) (textEdit, map[st
 		}
 	}
 
+	// ---- guard specialisation (normalize_guard.go) ------------------------------------------------
+	var g *guardInfo
+	needGuard := false
+	if !tail && nres > 0 {
+		g = nz.detectGuard(fset, s, stmt, parent, src)
+	}
+
 	// ---- body text with rewritten returns -----------------------------------------------------------
 	var rets []*ast.ReturnStmt
 	var walk func(n ast.Node)
@@ -1001,6 +1008,9 @@ func (nz *Normalizer) siteEdit(fset *token.FileSet, s *nfSite) (textEdit, map[st
 		rnames = append(rnames, r.name)
 	}
 	trailingOnly := len(rets) == 0 || (len(rets) == 1 && len(body.List) > 0 && body.List[len(body.List)-1] == ast.Stmt(rets[0]))
+	if g != nil && len(rets) > 0 {
+		trailingOnly = false
+	}
 	needLabel := false
 	var bedits []textEdit
 	for _, r := range rets {
@@ -1026,7 +1036,27 @@ func (nz *Normalizer) siteEdit(fset *token.FileSet, s *nfSite) (textEdit, map[st
 				}
 				assign = strings.Join(rtemps, ", ") + " = " + strings.Join(parts, ", ")
 			}
-			if trailingOnly && isTrailing {
+			decidedTrue := false
+			if g != nil {
+				known, dec := false, false
+				if len(r.Results) == nres {
+					dec, known = g.evalAt(info, r.Results[g.k], body, r)
+				}
+				switch {
+				case known && dec:
+					if atxt, ok := nz.guardBodyAt(fset, s, g, rtemps, r, src); ok {
+						rep = "{ " + assign + "\n" + atxt + "\n}"
+						decidedTrue = true
+					} else {
+						needGuard = true
+					}
+				case known && !dec:
+				default:
+					needGuard = true
+				}
+			}
+			if decidedTrue {
+			} else if trailingOnly && isTrailing {
 				rep = "{ " + assign + " }"
 			} else {
 				needLabel = true
@@ -1090,9 +1120,29 @@ func (nz *Normalizer) siteEdit(fset *token.FileSet, s *nfSite) (textEdit, map[st
 	pre := sb.String()
 
 	var out string
+	editEnd := off(stmt.End())
 	stext := string(src[off(stmt.Pos()):off(stmt.End())])
 	cs, ce := off(s.call.Pos())-off(stmt.Pos()), off(s.call.End())-off(stmt.Pos())
 	switch {
+	case g != nil && g.kind == 1:
+		repl := strings.Join(rtemps, ", ")
+		out = pre + stext[:cs] + repl + stext[ce:]
+		var used []string
+		for _, n := range g.lhsText {
+			if n != "_" {
+				used = append(used, n)
+			}
+		}
+		if len(used) > 0 {
+			out += "\n" + blanks(len(used)) + " = " + strings.Join(used, ", ")
+		}
+		if needGuard {
+			out += "\n" + string(src[off(g.ifs.Pos()):off(g.ifs.End())])
+		}
+		editEnd = off(g.ifs.End())
+	case g != nil && !needGuard:
+		// every return site decided the guard: the if statement is gone
+		out = "{\n" + pre + "}"
 	case tail:
 		// the whole return statement becomes the block (its last statement terminates)
 		out = "{\n" + strings.TrimSuffix(pre, "\n") + "\n}"
@@ -1122,7 +1172,7 @@ func (nz *Normalizer) siteEdit(fset *token.FileSet, s *nfSite) (textEdit, map[st
 	if elsePos && !strings.HasPrefix(out, "{") {
 		out = "{\n" + out + "\n}"
 	}
-	return textEdit{start: off(stmt.Pos()), end: off(stmt.End()), text: out}, addImports, ""
+	return textEdit{start: off(stmt.Pos()), end: editEnd, text: out}, addImports, ""
 }
 
 func blanks(n int) string {
